@@ -269,8 +269,11 @@ def runA (sent : Option Val) (st : AState) : RunOut × AState :=
   match st.pc with
   | 0 => aLoop st.n 0 0
   | 1 =>
-    let tot := match sent with | some (.int x) => st.tot + x | _ => st.tot
-    aLoop st.n (st.i + 1) tot
+    match sent with
+    | some (.int 6) => (.raise (.other .key), ⟨st.n, 2, st.i, st.tot⟩)   -- `if x == 6: raise KeyError`: lets D(n) die from an exception propagated out of its sub-generator
+    | _ =>
+      let tot := match sent with | some (.int x) => st.tot + x | _ => st.tot
+      aLoop st.n (st.i + 1) tot
   | _ => (.ret .none, st)
 
 inductive TState
@@ -446,7 +449,7 @@ def randOps (r : Rng) (ngen : Nat) (len : Nat) : Rng × List Op := Id.run do
     let (r2, k) := r1.nat 10
     let (r3, v) := r2.nat 6
     r := r3
-    let o : Op := if k < 5 then .next g else if k < 9 then .send g ([5, 7, 8, 3, 0, -4].getD v 1) else .reenter
+    let o : Op := if k < 5 then .next g else if k < 9 then .send g ([5, 7, 8, 3, 6, -4].getD v 1) else .reenter
     ops := ops ++ [o]
   return (r, ops)
 
@@ -509,7 +512,7 @@ def genMain (tier : String) (seed : Nat) : IO Unit := do
     r := r3
     IO.println (mkItCase c karr[ki]! sc).line
   -- (4) generator histories: all interleavings of bounded length over 3 live generators
-  let alpha : List Op := [.next 0, .next 1, .next 2, .send 0 5, .send 1 7, .send 2 3, .send 1 8, .send 0 0]
+  let alpha : List Op := [.next 0, .next 1, .next 2, .send 0 5, .send 1 7, .send 2 3, .send 1 8, .send 0 0, .send 2 6]
   let sets : List (List Tmpl) := [[.A 2, .F 2, .D 2], [.H 2, .F 1, .A 0], [.D 1, .H 1, .F 3]]
   let histLen := if thorough then 5 else 4
   for tm in sets do
